@@ -26,7 +26,7 @@ ASSUMPTIONS = [ 'Gauss-Legendre 32 x 2 vs 32 x 4 agreement 1e-9 (else scipy quad
               ]
 
 def plan (tier, seed):
-    n = 320 if tier == 'quick' else 4000
+    n = 480 if tier == 'quick' else 4000
     return [dict (i = i, seed = seed) for i in range (n)] + corpus.plan_cases (seed, tier, 1, 3)
 # end def plan
 
